@@ -100,7 +100,7 @@ def plan_virtual(tier, seed):
     return out
 
 
-REAL_TIMEOUT = 20
+REAL_TIMEOUT = 15
 
 
 def real_fault_runs(res, scratch, spec, tier, only=None):
@@ -146,22 +146,29 @@ def real_fault_runs(res, scratch, spec, tier, only=None):
         res.evaluations += 1
         res.nt(fw.h64(case))
         res.count("real_process_fault_runs")
-        # own session, no pipes: a hung command leaves live grandchildren behind, which are killed as a group
-        with open(os.path.join(d, "driver.err"), "wb") as errf:
-            p = subprocess.Popen([sys.executable, "-m", "mc.realfault_driver", d, str(cores), str(batch), str(w), str(k), kind, graph],
-                                 cwd=fw.VERIF, env=env, stdout=subprocess.DEVNULL, stderr=errf, stdin=subprocess.DEVNULL, start_new_session=True)
-            try:
-                p.wait(timeout=REAL_TIMEOUT)
-                hung = False
-            except subprocess.TimeoutExpired:
-                hung = True
-            try:
-                os.killpg(p.pid, signal.SIGKILL)
-            except ProcessLookupError:
-                pass
-            p.wait()
+        # own session, no pipes: a hung command leaves live grandchildren behind, which are killed as a group.
+        # A run that exceeds the time limit is repeated once with five times the limit before it is called a hang
+        # (a heavily loaded machine must not look like one).
+        for limit in (REAL_TIMEOUT, 5 * REAL_TIMEOUT):
+            if os.path.exists(out):
+                os.remove(out)
+            with open(os.path.join(d, "driver.err"), "wb") as errf:
+                p = subprocess.Popen([sys.executable, "-m", "mc.realfault_driver", d, str(cores), str(batch), str(w), str(k), kind, graph],
+                                     cwd=fw.VERIF, env=env, stdout=subprocess.DEVNULL, stderr=errf, stdin=subprocess.DEVNULL, start_new_session=True)
+                try:
+                    p.wait(timeout=limit)
+                    hung = False
+                except subprocess.TimeoutExpired:
+                    hung = True
+                try:
+                    os.killpg(p.pid, signal.SIGKILL)
+                except ProcessLookupError:
+                    pass
+                p.wait()
+            if not hung:
+                break
         if hung:
-            res.fail(f"C13/real-run:hang:{kind}", f"{what} the command is still running after {REAL_TIMEOUT} s", case)
+            res.fail(f"C13/real-run:hang:{kind}", f"{what} the command is still running after {5 * REAL_TIMEOUT} s", case)
             nhang += 1
             if nhang >= 3:
                 break  # enough evidence; every further hang costs the full time limit
